@@ -63,6 +63,29 @@ namespace
 				return 0;
 		return static_cast<unsigned short>(val);
 	}
+
+	/// Is the text a number of the kind the field type holds? Integer types: [-]digits; float types: [-]digits[.[digits]]
+	/// or [-].digits. The conversions (fast_atoi, fast_atof) do not look at what they convert: "5.0", "30x" or " 5" in
+	/// an integer field would otherwise be accepted with a value that has nothing to do with the text.
+	inline bool numeric_text_ok(FieldTrait::FieldType ftype, const char *txt)
+	{
+		const bool isflt(FieldTrait::is_float(ftype));
+		if (!isflt && !FieldTrait::is_int(ftype))
+			return true;
+		if (*txt == '-')
+			++txt;
+		unsigned digits(0), dots(0);
+		for (; *txt; ++txt)
+		{
+			if (isdigit(*txt))
+				++digits;
+			else if (*txt == '.' && isflt && !dots)
+				++dots;
+			else
+				return false;
+		}
+		return digits > 0;
+	}
 }
 
 //-------------------------------------------------------------------------------------------------
@@ -144,6 +167,8 @@ unknown_field:
 			const BaseEntry *be(_ctx.find_be(tv));
 			if (!be)
 				throw UnknownField(tv);
+			if (!numeric_text_ok(itr->_ftype, val))
+				throw InvalidDomainValue<f8String>(f8String(tag) + '=' + val);
 			BaseField *bf(be->_create._do(val, be->_rlm, -1));
 			add_field_decoder(tv, ++pos, bf);
 			itr->_field_traits.set(FieldTrait::present);
@@ -224,6 +249,8 @@ unsigned MessageBase::decode_group(GroupBase *grpbase, const unsigned short fnum
 				break;
 			}
 			s_offset += result;
+			if (!numeric_text_ok(itr->_ftype, val))
+				throw InvalidDomainValue<f8String>(f8String(tag) + '=' + val);
 			BaseField *bf(be->_create._do(val, be->_rlm, -1));
 			grp->add_field(tv, itr, ++pos, bf, false);
 			grp->_fp.set(tv, itr, FieldTrait::present);	// is present
